@@ -168,9 +168,31 @@ def check_case(case, ctx):
             ctx.violation("C17/ranking-equality-wrong", f"Ranking {ra} == {rb} returned {req}, expected {expected}", sub)
     # history: after having been compared, A is mutated in place and compared again (to a fresh dataset holding exactly
     # its new rankings: expected equal; to a fresh copy of its former content: expected by the reference)
-    mut = random.Random(case["seed"]).choice(["remove_empty", "remove_element", "none"])
+    mut = random.Random(case["seed"]).choice(["remove_empty", "remove_element", "none", "refused", "refused"])
     before_raw = libx.raw_dataset(da)
     did = False
+    if mut == "refused":
+        # a mutation the library refuses (it would leave no element): the caller catches the exception and keeps the
+        # Dataset, whose rankings are unchanged -- it must still compare like a dataset holding those rankings
+        how = random.Random(case["seed"] + 1).choice(["all", "rate"])
+        if how == "all":
+            str_, res = call(da.remove_elements, {ck.Element(e) for e in ref.universe(before_raw)})
+        else:
+            str_, res = call(da.remove_elements_rate_presence_lower_than, 2.0)
+        after_raw = libx.raw_dataset(da)
+        if str_ == "exc" and ref.dataset_multiset(after_raw) == ref.dataset_multiset(before_raw):
+            ctx.count("compared_again_after_refused_mutation")
+            fresh = libx.mk_dataset(before_raw)
+            for side, fn, want in (("a==fresh copy", lambda: da == fresh, True), ("fresh copy==a", lambda: fresh == da, True),
+                                   ("a==a", lambda: da == da, True), ("a==b", lambda: da == db, expected),
+                                   ("b==a", lambda: db == da, expected)):
+                stq, got = call(fn)
+                if stq == "exc" or bool(got) != want:
+                    ctx.violation("C17/wrong-answer-after-refused-mutation", f"after a refused removal ({how}: "
+                                  f"{type(res).__name__}) that left the rankings unchanged, {side} gave "
+                                  f"{exc_desc(got) if stq == 'exc' else got}, expected {want}",
+                                  {**sub, "mutation": "refused:" + how}, observed=repr(got), expected=want)
+                    break
     if mut == "remove_empty" and any(len(r) == 0 for r in before_raw) and any(len(r) for r in before_raw):
         did = call(da.remove_empty_rankings)[0] == "ok"
     elif mut == "remove_element" and len(ref.universe(before_raw)) >= 2:
@@ -213,7 +235,9 @@ def reach(counters, tier, info):
                             ("near misses: names with a comma", "near_miss:comma", 100 * k),
                             ("near misses: names with a space", "near_miss:space", 100 * k),
                             ("single-ranking pairs (agreement with Ranking equality)", "single_ranking_pairs", 300 * k),
-                            ("datasets compared again after an in-place mutation", "compared_again_after_in_place_mutation", 600 * k)]:
+                            ("datasets compared again after an in-place mutation", "compared_again_after_in_place_mutation", 400 * k),
+                            ("datasets compared again after a refused mutation (rankings unchanged)",
+                             "compared_again_after_refused_mutation", 600 * k)]:
         v = counters.get(key, 0)
         out.append({"name": name, "observed": v, "required": need, "ok": v >= need})
     return out
